@@ -14,9 +14,20 @@ Open Scope N_scope.
 
 Inductive bspec :=
 | SLit (b : bytes)
+| SNum (n : N)                     (* octets as one hexadecimal numeral, see [nbytes] *)
 | SCyc (pat : bytes) (n : N)       (* first n octets of pat pat pat ... *)
 | SLcg (state : N) (n : N)         (* n octets of the LCG started in [state] *)
 | SApp (a b : bspec).
+
+(* 0x1<hex of the octets in reverse order>: the octets, first octet in the low
+   bits, under a sentinel nibble 1 (numerals are parsed ~5x faster than strings) *)
+Fixpoint pos_le_bytes (p : positive) (k : N) (cur : N) : bytes :=
+  match p with
+  | xH => if k =? 1 then [] else [cur + k]
+  | xO q => if k =? 128 then cur :: pos_le_bytes q 1 0 else pos_le_bytes q (2 * k) cur
+  | xI q => if k =? 128 then (cur + k) :: pos_le_bytes q 1 0 else pos_le_bytes q (2 * k) (cur + k)
+  end.
+Definition nbytes (n : N) : bytes := match n with Npos p => pos_le_bytes p 1 0 | N0 => [] end.
 
 Definition cyc_step (pat : bytes) (st : bytes * bytes) : bytes * bytes :=
   let '(rem, acc) := st in
@@ -42,6 +53,7 @@ Definition lcg (state n : N) : bytes := rev_append (snd (N.iter n lcg_step (n2i 
 Fixpoint bs_eval (s : bspec) : bytes :=
   match s with
   | SLit b => b
+  | SNum n => nbytes n
   | SCyc pat n => cyc pat n
   | SLcg st n => lcg st n
   | SApp a b => bs_eval a ++ bs_eval b
